@@ -4,6 +4,7 @@ import (
 	"bytes"
 	"context"
 	"fmt"
+	"io"
 	"os"
 	"os/exec"
 	"path/filepath"
@@ -743,4 +744,80 @@ func TestC16Watch(t *testing.T) {
 			violation(rt, "C16", "c16w", c, msg)
 		}
 	})
+}
+
+// c16Sig: a run that is interrupted by SIGINT / SIGTERM while it waits for its input has not succeeded: its exit status must not be 0.
+type c16Sig struct {
+	Args    []string `json:"args"`
+	Sig     int      `json:"sig"`
+	DelayMs int      `json:"delayMs"`
+	Partial string   `json:"partial,omitempty"` // written to stdin (which stays open) before the signal
+}
+
+func init() { registerReplay("c16s", c16SigCheck) }
+
+func c16SigCheck(c c16Sig) string {
+	bin := os.Getenv("VERIF_CLI_BIN")
+	if bin == "" {
+		return ""
+	}
+	cliSeq++
+	dir := filepath.Join(scratch, fmt.Sprintf("clis.%d.%d", os.Getpid(), cliSeq))
+	os.MkdirAll(dir, 0o755)
+	defer os.RemoveAll(dir)
+	cmd := exec.Command(bin, c.Args...)
+	cmd.Dir = dir
+	cmd.Env = append(os.Environ(), "NO_COLOR=1")
+	var so, se bytes.Buffer
+	cmd.Stdout, cmd.Stderr = &so, &se
+	in, err := cmd.StdinPipe()
+	if err != nil || cmd.Start() != nil {
+		ops.InfraCount.Add(1)
+		return ""
+	}
+	defer in.Close()
+	io.WriteString(in, c.Partial)
+	time.Sleep(time.Duration(c.DelayMs) * time.Millisecond)
+	cmd.Process.Signal(syscall.Signal(c.Sig))
+	done := make(chan error, 1)
+	go func() { done <- cmd.Wait() }()
+	select {
+	case err = <-done:
+	case <-time.After(20 * time.Second):
+		// a process that ignores the signal and goes on waiting for its input: not this property's subject (end it)
+		cmd.Process.Kill()
+		<-done
+		ops.InfraCount.Add(1)
+		return ""
+	}
+	if err == nil {
+		return fmt.Sprintf("gtree %q with its standard input still open (%q written so far) was sent signal %d after %d ms and exited with status 0 (stdout %q, stderr %q): an interrupted run has not succeeded",
+			c.Args, c.Partial, c.Sig, c.DelayMs, truncate(so.String(), 200), truncate(se.String(), 200))
+	}
+	return ""
+}
+
+func TestC16Signal(t *testing.T) {
+	col := coll("C16", "signal")
+	col.Rule = "subcommand x flags (output, --format json|yaml, --massive, --dry-run; mkdir --dry-run; verify) x {SIGINT, SIGTERM} x delay {30, 200 ms} x {nothing, a partial document} written to a standard input that stays open; the exit status must not be 0; non-trivial = always"
+	n := 0
+	for _, args := range [][]string{{"output"}, {"output", "--format", "json"}, {"output", "--format", "yaml"}, {"output", "--massive"}, {"output", "--dry-run"}, {"mkdir", "--dry-run"}, {"verify"}} {
+		for _, sig := range []int{int(syscall.SIGINT), int(syscall.SIGTERM)} {
+			for _, d := range []int{30, 200} {
+				for _, partial := range []string{"", "- a\n  - b\n"} {
+					n++
+					if n%nshards != shard {
+						continue
+					}
+					c := c16Sig{Args: args, Sig: sig, DelayMs: d, Partial: partial}
+					col.eval(true, hash64(fmt.Sprint(c)), "cmd:"+args[0], fmt.Sprintf("sig:%d", sig))
+					col.sample(func() any { return c })
+					if msg := c16SigCheck(c); msg != "" {
+						violation(t, "C16", "c16s", c, msg)
+					}
+				}
+			}
+		}
+	}
+	col.Exhaustive = true
 }
